@@ -328,7 +328,7 @@ Proof.
   destruct (N.ltb_spec n 24).
   - eapply encs_one; [cbn [enc_token]; unfold enc_simple; destruct (N.leb_spec n 23); [reflexivity|lia]|]. reflexivity.
   - cbn [orb] in Hw. apply andb_prop in Hw as [H1 H2]. apply N.leb_le in H1.
-    eapply encs_one; [cbn [enc_token]; unfold enc_simple; destruct (N.leb_spec n 23); [lia|]; destruct (N.leb_spec n 31); [lia|reflexivity]|].
+    eapply encs_one; [cbn [enc_token]; unfold enc_simple; destruct (N.leb_spec n 23); [lia|reflexivity]|].
     reflexivity.
 Qed.
 
